@@ -204,7 +204,14 @@ def rand_unicode_line(rng: random.Random, maxlen: int = 12) -> str:
     return "".join(rand_unicode_char(rng) for _ in range(rng.randrange(0, maxlen)))
 
 
+# ill-formed conditions in which the operator found first occurs twice (`split` then yields three parts)
+REPEATED_OP = ["1 < X < 5", "X > 1 > 0", "A == B == C", "X = Y = 2", "0 <= X <= 10", "X != 1 != 2", "a >= b >= c",
+               "X<1<", "= =", "X == 1 == ", "T < 5 °C < 9"]
+
+
 def rand_condition(rng: random.Random) -> str:
+    if rng.random() < 0.1:
+        return rng.choice(REPEATED_OP)
     tag = rng.choice(["X", "Run Counter", "Block Time", "A1", "Tag 2"])
     val = rng.choice(["0", "5", "12", "0.5", "1e3", "-3", "Running", "5 mL", "3 L/h", "2 %", "5 °C"])
     return f"{tag} {rng.choice(OPS)} {val}"
@@ -223,7 +230,7 @@ def rand_instruction(rng: random.Random, opener: bool | None = None) -> tuple[st
     name = rng.choice(LEAVES + UOD + ["Mark", "Mark", "Mark", "Foo", "1Mark"])
     r = rng.random()
     if name == "Simulate":
-        body = f"{name}: X = {rng.choice(['1', '22', '5 mL'])}"
+        body = f"{name}: X = {rng.choice(['1', '22', '5 mL', 'Y = 2', '1 = 1'])}"
     elif r < 0.5:
         body = f"{name}: {rng.choice(['a', 'b c', '5', '1.5 h', 'x: y'])}"
     elif r < 0.6:
